@@ -74,7 +74,7 @@ static void gen_value(Rng &r, const GenKnobs &k, Node &n, int &budget, int od, i
 
 static void gen_container_body(Rng &r, const GenKnobs &k, Node &n, int &budget, int od, int ad) {
     if (r.chance((unsigned)k.p_empty, 100)) return;
-    int want = 1 + (int)r.below(5);
+    int want = 1 + (int)r.below((uint64_t)std::max(1, k.max_kids));
     if (n.t == V_OBJ) {
         std::vector<Bytes> names;
         for (int i = 0; i < want && budget > 0; i++) names.push_back(gen_name(r, k, names));
